@@ -310,7 +310,7 @@ fn c10_rpc_short_silent_tcp27() {
 
 //# harness: c10_rpc_short_silent_udp39
 //# props: C10 C16
-//# tier: thorough
+//# tier: extended
 //# encodes: proto::rpc::repl_udp, rpc_parse
 //# bounds: 39 arbitrary bytes (one byte short of the smallest complete call)
 //# cover: short datagram ignored
